@@ -155,6 +155,10 @@ def install(I):
     E["math.floor"] = Builtin("math.floor", _floor)
     E["math.pi"] = math.pi
     E["math.inf"] = math.inf
+    E["math.sin"] = Builtin("math.sin", lambda i, a, k: __import__("pyvc.npmodel", fromlist=["trig"]).trig(i, "sin", a[0]),
+                            "math: sin/cos of an angle are reals s, c with s*s + c*c = 1")
+    E["math.cos"] = Builtin("math.cos", lambda i, a, k: __import__("pyvc.npmodel", fromlist=["trig"]).trig(i, "cos", a[0]),
+                            "math: sin/cos of an angle are reals s, c with s*s + c*c = 1")
     E["math.sqrt"] = Builtin("math.sqrt", lambda i, a, k: i.sqrt_model(a[0]))
     E["math.isclose"] = Builtin("math.isclose", lambda i, a, k: (_ for _ in ()).throw(Unsupported("math.isclose")))
     WR = mkcls("weakref")
